@@ -206,6 +206,9 @@ func drive(args []string) int {
 	start := time.Now()
 	seed := *seedF
 	nshards := spec.Shards
+	if *tier == "thorough" && spec.ShardsThorough > 0 {
+		nshards = spec.ShardsThorough
+	}
 	if nshards == 0 {
 		nshards = 14
 		if n := runtime.NumCPU() - 2; n < nshards && n >= 1 {
@@ -256,6 +259,9 @@ func drive(args []string) int {
 		} else if r.rep == nil && r.crash == nil {
 			inconclusive = append(inconclusive, fmt.Sprintf("shard %d: no report (%s)", r.shard, r.errText))
 		}
+	}
+	if spec.Collect != nil {
+		spec.Collect(runDir, merged, seed)
 	}
 	if spec.Post != nil {
 		spec.Post(merged, *tier)
@@ -361,7 +367,9 @@ func runShard(bin string, spec *monitor.Spec, prop, tier string, seed int64, i, 
 	cmd.Stdout = lf
 	cmd.Stderr = lf
 	cmd.Env = append(os.Environ(), "GOTRACEBACK=single", "VERIF_RUNDIR="+runDir)
-	cmd.Env = append(cmd.Env, spec.Env...)
+	for _, e := range spec.Env {
+		cmd.Env = append(cmd.Env, strings.ReplaceAll(e, "$RUNDIR", runDir))
+	}
 	if err := cmd.Start(); err != nil {
 		res.errText = err.Error()
 		return res
